@@ -456,6 +456,39 @@ def teleport(index: RepoIndex, rep, rule: str) -> None:
                   f'teleport gate equivalent in {n} worlds')
 
 
+AREAS = (((0, 0), (0, 0)), ((0, 0), (0, 3)), ((0, 3), (0, 0)), ((0, 1), (0, 1)),
+         ((0, 2), (0, 3)), ((-1, 1), (2, 4)), ((0, 1), (0, 4)), ((0, 4), (0, 1)))
+
+
+def scan_once(index: RepoIndex, rep, rule: str) -> None:
+    """`Area.positions('all')` lists every cell of the area exactly once (in any order), and
+    `'inside'` every interior cell exactly once -- also for one-row, one-column and one-cell
+    areas -- decided on the denotation of the method at eight small concrete areas (the
+    generators are affine in the bounds, so small areas exercise every shape class).  A scan
+    that lists a cell twice makes `move_obstacles` move an obstacle twice in one step."""
+    from ..posenum import area_positions
+    rep.rule(rule, "Area.positions('all' / 'inside') enumerates each cell exactly once, in "
+             'some fixed order (degenerate areas included)', floor=16)
+    GEOMF = 'gym_gridverse/geometry.py'
+    m = index.func(GEOMF, 'Area.positions')
+    for ys, xs in AREAS:
+        want_all = [(y, x) for y in range(ys[0], ys[1] + 1) for x in range(xs[0], xs[1] + 1)]
+        want_in = [(y, x) for y in range(ys[0] + 1, ys[1]) for x in range(xs[0] + 1, xs[1])]
+        for sel, want in (('all', want_all), ('inside', want_in)):
+            got = area_positions(index, sel, ys, xs)
+            rep.check(sorted(got) == sorted(want), rule, GEOMF, 'Area.positions', m.node.lineno,
+                      f"Area({ys}, {xs}).positions({sel!r}) = {got[:8]}",
+                      f"Area({ys}, {xs}).positions({sel!r}) yields {got[:10]}, expected each of "
+                      f'{want[:10]} exactly once',
+                      f'positions({sel!r}) on {ys}x{xs}')
+        got_b = area_positions(index, 'border', ys, xs)
+        want_b = set(want_all) - set(want_in)
+        rep.check(set(got_b) == want_b, rule, GEOMF, 'Area.positions', m.node.lineno,
+                  f"Area({ys}, {xs}).positions('border') = {sorted(set(got_b))[:8]}",
+                  f"Area({ys}, {xs}).positions('border') covers {sorted(set(got_b))[:10]}, not "
+                  f'exactly the border cells', f"positions('border') on {ys}x{xs}")
+
+
 def run(index: RepoIndex, rep) -> None:
     rep.rule('C11.R1', 'move_obstacles: list collected before the loop, candidates = in-grid '
              'Floor neighbours at its turn, full-support index, swap only, stays if none',
@@ -466,3 +499,4 @@ def run(index: RepoIndex, rep) -> None:
     obstacles(index, rep, 'C11.R1')
     boundary(index, rep, 'C11.R2')
     teleport(index, rep, 'C11.R3')
+    scan_once(index, rep, 'C11.R4')
